@@ -295,7 +295,13 @@ def run_body(sub, case):
     except HarnessError:
         raise
     except _CaseTimeout:
-        return None, ("hang", "case did not finish within %d s of CPU time" % CASE_TIMEOUT_S)
+        # a CPU budget hit is a violation only where the inputs are so small that nothing but non-termination can
+        # explain it; modules whose cost depends on generated grid sizes opt out (HANG_IS_VIOLATION = False): there
+        # it is "inconclusive", counted in the class histogram, never a violation
+        mod = sys.modules.get(getattr(sub.body, "__module__", ""), None)
+        if getattr(mod, "HANG_IS_VIOLATION", True):
+            return None, ("hang", "case did not finish within %d s of CPU time" % CASE_TIMEOUT_S)
+        return {"undef": True, "cls": ["inconclusive-cpu-budget-exceeded"]}, None
     except KeyboardInterrupt:
         raise
     except BaseException as e:          # includes SystemExit from tracklib's exit() calls
